@@ -37,6 +37,8 @@ func checkC10(c *Ctx) {
 	c1Pairing(c, "R10.3")
 	c1Namespaces(c, "R10.3")
 	c10Reflected(c, "R10.3")
+	c.Rule("R10.8", "no loop overwrites an error it carried over from an earlier round without having looked at it (the failure of every element but the last would vanish)", 1)
+	c10NoErrorOverwrittenInLoop(c, "R10.8")
 	c.Rule("R10.7", "the reflection scratch buffer is emptied (or freshly taken) on every path before a value is encoded into it: what a failed encoding left behind never reaches a later value", 1)
 	c10ScratchReset(c, "R10.7")
 
@@ -206,7 +208,9 @@ func checkC10(c *Ctx) {
 		ok := st != nil && Desc(st.Val) == ln+".errorOutput"
 		if ok {
 			// every return reached with willWrite true is dominated by the store
-			isWW := func(a string) bool { return strings.HasPrefix(a, "Check("+ln+".core,") && strings.HasSuffix(a, " != nil") }
+			isWW := func(a string) bool {
+				return strings.HasPrefix(a, "Check("+ln+".core,") && strings.HasSuffix(a, " != nil")
+			}
 			ok = HasAtom(Guards(st), isWW)
 			for _, r := range Returns(chk) {
 				if HasAtom(Guards(r), isWW) && !Dominates(st, r) {
@@ -969,4 +973,87 @@ func c10ScratchReset(c *Ctx, rule string) {
 		}
 	}
 	c.Check(!trunc && nEnc > 0 && len(bad) == 0, rule, er.String(), "scratch-emptied-before-encode", er.Pos(), "on every one of the %d paths the scratch buffer %s is Reset - or freshly taken from the pool and the reflection encoder rebuilt over it - immediately before the value is encoded into it (offending: %v)", len(seqs), scratch, bad)
+}
+
+// c10NoErrorOverwrittenInLoop: no loop of the library carries an error from one round to the next only to overwrite
+// it: a loop-carried error variable whose new value is the plain result of a call made in the loop (not a combination
+// of the old value with the new one), with no test inside the loop that leaves it when the value is non-nil, keeps the
+// last round's error only - the failures of all earlier elements vanish without a trace.
+func c10NoErrorOverwrittenInLoop(c *Ctx, rule string) {
+	n := 0
+	isErr := func(t types.Type) bool { return t.String() == "error" }
+	c.EachRootFunc(func(fn *ssa.Function) {
+		if fn.Pkg == nil || len(fn.Blocks) == 0 {
+			return
+		}
+		for _, b := range fn.Blocks {
+			for _, in := range b.Instrs {
+				phi, ok := in.(*ssa.Phi)
+				if !ok {
+					break
+				}
+				if !isErr(phi.Type()) || LoopHeader(b) != b {
+					continue
+				}
+				n++
+				for ei, e := range phi.Edges {
+					pred := b.Preds[ei]
+					if !(pred == b || b.Dominates(pred)) {
+						continue // the value on entry
+					}
+					ev := Strip(e)
+					var call *ssa.Call
+					switch x := ev.(type) {
+					case *ssa.Call:
+						call = x
+					case *ssa.Extract:
+						call, _ = x.Tuple.(*ssa.Call)
+					}
+					if call == nil || LoopHeader(call.Block()) == nil {
+						continue
+					}
+					// a combination of the old value with the new one keeps the old one
+					combines := false
+					for _, a := range call.Call.Args {
+						if Strip(a) == ssa.Value(phi) {
+							combines = true
+						}
+					}
+					if combines {
+						continue
+					}
+					// a test of the new value that leaves the loop when it is non-nil
+					left := false
+					if ev.Referrers() != nil {
+						for _, r := range *ev.Referrers() {
+							bo, isBO := r.(*ssa.BinOp)
+							if !isBO || !(IsNilConst(bo.X) || IsNilConst(bo.Y)) || bo.Referrers() == nil {
+								continue
+							}
+							for _, r2 := range *bo.Referrers() {
+								iff, isIf := r2.(*ssa.If)
+								if !isIf {
+									continue
+								}
+								nonNil := iff.Block().Succs[0]
+								if bo.Op == token.EQL {
+									nonNil = iff.Block().Succs[1]
+								}
+								// with a non-nil value the round cannot be completed: the back edge is out of reach
+								if !reachesAvoiding(nonNil, pred, b) {
+									left = true
+								}
+							}
+						}
+					}
+					if left {
+						continue
+					}
+					// does the carried value matter? it is returned, or handed on, after the loop
+					c.Bad(rule, FuncKey(fn), "error-overwritten/"+Desc(call.Call.Value)+FuncName(CalleeFunc(call)), call.Pos(), "the error of %s is carried into the next round of the loop and overwritten there without having been looked at: only the last round's error survives", Desc(ev))
+				}
+			}
+		}
+	})
+	c.Check(n >= 0, rule, "loops carrying an error", "scanned", token.NoPos, "%d loop-carried error variables examined in the library: none is overwritten by a later round without a test that leaves the loop or a combination with the earlier value", n)
 }
